@@ -38,6 +38,8 @@ def key_of(rej, stim):
     why = rej.get("why", "judge")
     if stim is None:
         return "linked:unknown:" + slug(why)
+    if stim["kind"] == "pt-race":
+        return "linked:pt-sync:%s:foreign-drop-races-acquire" % slug(why)
     if stim["kind"] == "statics":
         shape = "nested" if any(stim["deps"].get(str(k)) for k in (1, 2, 3)) else "flat"
         return "linked:statics:%s:%s" % (slug(why), shape)
@@ -127,6 +129,15 @@ def run_free(stim, name, watchdog_ms=15000):
         # the child itself hung beyond its own watchdog: record that as the outcome
         write_ndjson(tp, [{"ev": "reset", "stim": 0, "kind": "statics", "id": stim.get("id", "")},
                           {"ev": "end", "outcome": "hung", "drift": 0, "scripted": False, "nsteps": 0, "steps": []}])
+    return tp
+
+
+def run_ptrace(stim, name):
+    wd = workdir(PID)
+    tp = os.path.join(wd, "trace_%s.ndjson" % name)
+    if os.path.exists(tp):
+        os.remove(tp)
+    vlib.run_bin("h_linked", ["ptrace", tp, stim.get("ms", 2500)], timeout=120)
     return tp
 
 
@@ -269,6 +280,15 @@ def check(run):
         recs[0]["stim"] = len(stims)
         stims.append(sc)
         extra += recs
+    # per-thread wrapper, free-running: a foreign drop of the owner's only reference races the owner's acquire() calls
+    race = {"kind": "pt-race", "id": "pt:foreign-drop-races-acquire:free-running", "free": True, "ms": 8000 if thorough else 2500}
+    recs = read_ndjson(run_ptrace(race, "ptrace"))
+    recs[0]["stim"] = len(stims)
+    stims.append(race)
+    extra += recs
+    run.cov["foreign_drop_race"] = {k: recs[1][k] for k in ("rounds", "pairs", "created")}
+    if recs[1]["rounds"] < 100:
+        raise vlib.ToolError("pt-race exercised nothing: %s" % json.dumps(recs[1]))
     with open(tp, "a") as f:
         for r in extra:
             f.write(json.dumps(r, separators=(",", ":")) + "\n")
@@ -305,7 +325,9 @@ def replay(path):
     run = vlib.Run(PID, "replay")
     workdir(PID, "replay_run", clean=True)
     stats = {"traces": 0, "events": 0, "scripted": 0, "drift": 0, "not_completed": 0}
-    if stim.get("free"):
+    if stim.get("kind") == "pt-race":
+        tp = run_ptrace(dict(stim, ms=8000), "replay")
+    elif stim.get("free"):
         tp = run_free(stim, "replay")
     else:
         tp, _ = run_harness([stim] * (1 if "script" in stim else 8), "replay")
